@@ -40,7 +40,20 @@ pub open spec fn all_sized(rs: Seq<Region>, reg: &TypeRegistry) -> bool {
     forall|i: int| 0 <= i < rs.len() ==> ty_size(#[trigger] rs[i].type_ref, reg) is Some
 }
 
-pub uninterp spec fn reg_wf(reg: &TypeRegistry) -> bool;
+/// the registry contains the built-in `u8` (size 1, alignment 1) that padding regions are made of
+pub open spec fn reg_wf(reg: &TypeRegistry) -> bool {
+    &&& reg.types@.contains_key(u8_path())
+    &&& reg.types@[u8_path()].state is Resolved
+    &&& reg.types@[u8_path()].state->Resolved_0.size == 1
+    &&& reg.types@[u8_path()].state->Resolved_0.alignment == 1
+}
+pub proof fn lemma_pad_size(n: usize, reg: &TypeRegistry)
+    requires reg_wf(reg)
+    ensures ty_size(pad_type(n as nat), reg) == Some(n), ty_align(pad_type(n as nat), reg) == Some(1usize)
+{
+    reveal_with_fuel(ty_size, 3);
+    reveal_with_fuel(ty_align, 3);
+}
 
 /// end offsets: offset of region j in a region list
 pub open spec fn offset_of(rs: Seq<Region>, j: int, reg: &TypeRegistry) -> nat {
@@ -183,4 +196,33 @@ pub open spec fn align_ok(packed: bool, align: Option<usize>, rs: Seq<Region>, s
         &&& a > 0 && size % a == 0
     }
 }
+
+// ---------- placement theorem vocabulary ----------
+/// like placed_ok, but modulo the renaming of unnamed regions performed by the last loop
+pub open spec fn placed_ok_final(input: Seq<(Option<usize>, Region)>, k: int, out: Seq<Region>, idx: int, reg: &TypeRegistry) -> bool {
+    if idx < 0 {
+        ty_size(input[k].1.type_ref, reg) == Some(0usize) && input[k].1.type_ref is Array
+    } else {
+        idx < out.len() && out[idx].type_ref == input[k].1.type_ref
+        && (input[k].1.name is Some ==> out[idx] == input[k].1)
+        && (input[k].0 is Some ==> offset_of(out, idx, reg) == input[k].0->0)
+    }
+}
+pub open spec fn all_placed_final(input: Seq<(Option<usize>, Region)>, out: Seq<Region>, pos: Seq<int>, reg: &TypeRegistry) -> bool {
+    pos.len() == input.len() && forall|k: int| 0 <= k < input.len() ==> #[trigger] placed_ok_final(input, k, out, pos[k], reg)
+}
+pub open spec fn placement_exists(input: Seq<(Option<usize>, Region)>, out: Seq<Region>, reg: &TypeRegistry) -> bool {
+    exists|pos: Seq<int>| #[trigger] all_placed_final(input, out, pos, reg)
+}
+/// Ghost record: input field k was placed at output index `idx` (or -1 if dropped) with byte offset `off`.
+pub open spec fn placed_ok(input: Seq<(Option<usize>, Region)>, k: int, out: Seq<Region>, idx: int, reg: &TypeRegistry) -> bool {
+    if idx < 0 {
+        ty_size(input[k].1.type_ref, reg) == Some(0usize) && input[k].1.type_ref is Array
+    } else {
+        idx < out.len() && out[idx] == input[k].1
+        && (input[k].0 is Some ==> offset_of(out, idx, reg) == input[k].0->0)
+    }
+}
+
+
 }
